@@ -320,6 +320,39 @@ def real_logger_case():
     return out
 
 
+def cancelled_wait_case():
+    """a one-shot wait with a time-out whose waiter went away (its future was cancelled): once the time-out has passed nobody
+    waits any more, and the next message of that name is an ordinary unclaimed message. Returns violation strings."""
+    import asyncio
+    from hippolyzer.lib.base.message.message import Message, Block
+    from hippolyzer.lib.base.network.transport import Direction
+    from hippolyzer.lib.base.message.udpdeserializer import UDPMessageDeserializer
+    out = []
+    h = Harness()
+    try:
+        h.open_circuits()
+        region = h.session.regions[0]
+        de = UDPMessageDeserializer()
+
+        async def arm():
+            fut = region.message_handler.wait_for(("CompletePingCheck", "UndoLand"), timeout=0.03, take=True)
+            fut.cancel()
+            await asyncio.sleep(0.12)
+        h.loop.run_until_complete(arm())
+        for pid in (31, 32):
+            m = Message("CompletePingCheck", Block("PingID", PingID=pid), packet_id=pid, direction=Direction.IN, flags=0x40)
+            data, src = h.datagram(m)
+            exc, sent = h.feed(data, src)
+            n = sum(1 for _, _, p in sent if de.deserialize(p.data).name == "CompletePingCheck")
+            if exc is not None or n != 1:
+                out.append(f"after a cancelled wait_for had timed out, unclaimed message #{pid} was put on the wire {n} times (exception {exc!r}); expected exactly once")
+    except Exception as e:  # noqa
+        out.append(f"cancelled-wait scenario: harness error {type(e).__name__}: {e}")
+    finally:
+        h.close()
+    return out
+
+
 def bounded_addons(reg, tier, seed):
     rng = random.Random(seed)
     evals, failures, seen, samples = 0, [], set(), []
@@ -356,6 +389,10 @@ def bounded_addons(reg, tier, seed):
     for msg in hot_reload_case()[:2]:
         failures.append({"key": "addons/hot-reload", "clause": msg, "input": {"scenario": "addon script hot-reloading a helper module; helper edited between messages"},
                          "observed": msg})
+    evals += 2
+    seen.add(("cancelled-wait",))
+    for msg in cancelled_wait_case()[:2]:
+        failures.append({"key": "addons/cancelled-wait", "clause": msg, "input": {"scenario": "wait_for with a time-out, waiter cancelled, time-out passed"}, "observed": msg})
     evals += 9
     seen.add(("real-loggers",))
     for msg in real_logger_case()[:2]:
